@@ -388,13 +388,19 @@ class Kernel:
             ok = fn.startswith(self.trace_prefix)
             self._trace_cache[fn] = ok
         if ok:
+            if self.policy.get("opcodes"):
+                frame.f_trace_opcodes = True  # pre-emption points inside a source line (read-modify-write races)
             return self._local_trace
         return None
 
     def _local_trace(self, frame, event, arg):
-        if event == "line" and self.abort_reason is None and self.tracing:
+        if (event == "line" or (event == "opcode" and self.policy.get("opcodes"))) and self.abort_reason is None \
+                and self.tracing:
             cur = self.cur
-            cur.lines += 1
+            if event == "line":
+                cur.lines += 1
+            elif self.policy.get("kind") == "at":
+                return self._local_trace  # at(k) counts lines only
             self.steps += 1
             if self.steps > self.step_cap:
                 self._abort("step_cap")
